@@ -59,6 +59,20 @@ CLAIMED["C02"] = dict(
     technique="dispatch classification over the resolved instance graph + decision tables by abstract MIR path enumeration",
 )
 
+CLAIMED["C11"] = dict(
+    category="other",
+    text=("Classification table complete: the full MIR decision table of line_intersection (envelope test, four orientation signs, end-point "
+          "equalities, collinear sub-case; proper_intersection uninterpreted) is walked with the atom values of every ordered pair of integer "
+          "grid segments (6561 quick / 65536 thorough) and compared with exact reference geometry: None / Collinear with the exact overlap "
+          "ends / single point, properness, and the input end point copied for improper points (R11.2/3); both orders are in the catalogue "
+          "(R11.5); Line∩Line agrees (R11.4); decisions are arithmetic-free (R11.1, taint); proper_intersection returns the solved point only "
+          "after both envelope tests, else nearest_endpoint's pick, whose comparison table is the argmin of its four distances over all "
+          "256 abstract valuations (R11.6). Not decided: ulp distance of proper points to the true crossing."),
+    design_ref="DESIGN.md §4 C11, Appendix A",
+    note="Trusted: reference geometry in analyses/rules/c11.py; robust::orient2d; a feasible valuation the grid misses is a lost detection, never an alarm.",
+    technique="decision table by abstract MIR path enumeration, compared on a witness catalogue; taint for exactness",
+)
+
 NOT_YET = "rule set not implemented in this revision of /verif (see DESIGN.md §7 build order); nothing is claimed"
 NA = {}
 
